@@ -381,6 +381,22 @@ def check_C11(tier):
     return c.finish()
 
 
+def check_C16(tier):
+    c = Ctx("C16", tier)
+    q = tier == "quick"
+    r = c.mc("Did", "MC_C16.cfg", dict(KeyIds="{1}" if q else "{1, 2, 3}", Deviations="{}", Emit="Emit"), timeout=900,
+             label="Parse/PubKey/FromPubKey machine: RoundTrip, OnePrincipalOneDid, Rejects, Total")
+    for dev, inv in [("P384P521NotParsed", "RoundTrip"), ("Secp256k1AltFormsAccepted", "OnePrincipalOneDid"), ("EcdsaNilPointNotChecked", "Total")]:
+        c.mc("Did", "MC_C16.cfg", dict(KeyIds="{1}", Deviations='{"%s"}' % dev, Emit=""), expect_violation=inv,
+             label="sensitivity: " + dev)
+    c.replay("did", r.cases, rule="6 algorithms x %d keys x 9 key-material encodings x 4 prefixes x 4 multibases x 5 multicodec variants, "
+             "materialized with real keys and real alternative encodings; laws checked on real values; injectivity over all key pairs; "
+             "non-trivial = identifiers the model parses" % (1 if q else 3))
+    tr = c.drive("did", 4000 if q else 40000)
+    c.validate("did", "TraceDid", "TraceDid.cfg", tr, rule="random / mutated identifier strings judged by TraceDid")
+    return c.finish()
+
+
 CHAIN = {
     "C01": dict(q="MC_C01_q.cfg", t=["MC_C01_t.cfg", "MC_C01_t4.cfg"], dev='{"AudAsSubject"}',
                 rule="every invocation x proof list over principals {A,B,M}(+C), links over all principals, Undef subject and "
@@ -426,7 +442,7 @@ def check_chain(pid):
     return run
 
 
-CHECKS = {"C13": check_C13, "C15": check_C15, "C12": check_C12, "C14": check_C14, "C11": check_C11}
+CHECKS = {"C13": check_C13, "C15": check_C15, "C12": check_C12, "C14": check_C14, "C11": check_C11, "C16": check_C16}
 for _p in CHAIN:
     CHECKS[_p] = check_chain(_p)
 
